@@ -245,3 +245,60 @@ macro_rules! harness_nodec {
         }
     };
 }
+
+/// Model of `Checker::pointer_hash` (SipHash of a schema's address): the address is interned
+/// and its serial number returned.  Injective like the address itself, which is what the memo
+/// relies on (64-bit hash collisions between distinct addresses are outside every claim that
+/// uses this stub), and - unlike a pointer-to-integer cast, which CBMC treats as an opaque
+/// number until solving - decided by symex through pointer equality, so memo hits and misses
+/// are concrete.
+static mut SEEN: [*const apache_avro::schema::Schema; 32] = [std::ptr::null(); 32];
+static mut NSEEN: usize = 0;
+/// forget the interned addresses (between two independent checker runs)
+pub fn addr_reset() {
+    unsafe {
+        NSEEN = 0;
+    }
+}
+pub fn addr_hash(schema: &apache_avro::schema::Schema) -> u64 {
+    let p = schema as *const apache_avro::schema::Schema;
+    unsafe {
+        let mut i = 0;
+        while i < NSEEN {
+            if SEEN[i] == p {
+                return i as u64;
+            }
+            i += 1;
+        }
+        assert!(NSEEN < 32, "pointer-hash model: more than 32 distinct schema addresses");
+        SEEN[NSEEN] = p;
+        NSEEN += 1;
+        (NSEEN - 1) as u64
+    }
+}
+
+/// `harness_nodec!` plus the injective pointer-hash model (compatibility checker memo)
+#[macro_export]
+macro_rules! harness_compat {
+    ($(#[$m:meta])* $name:ident, unwind = $u:expr, $body:block) => {
+        pub mod $name {
+            #[allow(unused_imports)]
+            use super::*;
+            $(#[$m])*
+            pub fn body() $body
+            #[cfg(kani)]
+            #[kani::proof]
+            #[kani::unwind($u)]
+            #[kani::stub(std::hash::RandomState::new, $crate::sym::fixed_state)]
+            #[kani::stub(alloc::fmt::format, $crate::sym::no_format)]
+            #[kani::stub(apache_avro::util::max_allocation_bytes, $crate::sym::limit_model)]
+            #[kani::stub(apache_avro::decimal::Decimal::to_sign_extended_bytes_with_len, $crate::sym::no_sign_extend)]
+            #[kani::stub(apache_avro::bigdecimal::serialize_big_decimal, $crate::sym::no_big_decimal)]
+            #[kani::stub(apache_avro::bigdecimal::deserialize_big_decimal, $crate::sym::no_big_decimal_de)]
+            #[kani::stub(apache_avro::schema_compatibility::Checker::pointer_hash, $crate::sym::addr_hash)]
+            pub fn check() {
+                body()
+            }
+        }
+    };
+}
